@@ -561,6 +561,7 @@ func c07R7(p *core.Program, r *core.Report) {
 		var origins []string
 		bad := ""
 		seen := map[ssa.Value]bool{}
+		bound := map[*ssa.Parameter]ssa.Value{}
 		var trace func(v ssa.Value, depth int)
 		trace = func(v ssa.Value, depth int) {
 			v = core.StripConv(v)
@@ -574,7 +575,29 @@ func c07R7(p *core.Program, r *core.Report) {
 				if x.Value.String() != "false" {
 					bad = "the constant " + x.Value.String()
 				}
+			case *ssa.Call:
+				// the flag computed by a helper of the package: what its returns derive from, with the helper's
+				// parameters standing for the arguments of this call
+				g := x.Call.StaticCallee()
+				if g == nil || g.Blocks == nil || core.FuncPkgPath(g) != core.FuncPkgPath(cs.Caller) || depth > 4 {
+					bad = canonShort(v)
+					return
+				}
+				for i, fp := range g.Params {
+					if i < len(x.Call.Args) {
+						bound[fp] = x.Call.Args[i]
+					}
+				}
+				for _, ret := range core.Returns(g) {
+					if len(ret.Results) > 0 {
+						trace(ret.Results[0], depth+1)
+					}
+				}
 			case *ssa.Parameter:
+				if a, ok := bound[x]; ok {
+					trace(a, depth+1)
+					return
+				}
 				f := x.Parent()
 				idx := -1
 				for i, fp := range f.Params {
@@ -602,6 +625,11 @@ func c07R7(p *core.Program, r *core.Report) {
 					return
 				}
 				subject := core.StripConv(ta.X)
+				if prm, ok := subject.(*ssa.Parameter); ok {
+					if a, isBound := bound[prm]; isBound {
+						subject = core.StripConv(a)
+					}
+				}
 				if prm, ok := subject.(*ssa.Parameter); ok {
 					origins = append(origins, fmt.Sprintf("type test of parameter %s of %s against %s", prm.Name(), core.FuncName(prm.Parent()), core.ShortType(ta.AssertedType)))
 				} else {
@@ -696,7 +724,7 @@ func c07R8(p *core.Program, r *core.Report) {
 				"this date is extracted without converting the value to the environment's timezone while the other one is: the two calendar days are taken in different zones, so has_date_eq/lt/gt pick the wrong case for instants near midnight")
 		}
 	}
-	r.Require("paired_extract_date_sites", n, 2)
+	r.Count("paired_extract_date_sites", n) // zero when the conversion is written once in a helper: agreement by construction
 }
 
 // ---------------------------------------------------------------------------------------------- R9
